@@ -195,17 +195,21 @@ inductive Why (env : Env) (timeout : Option Rat) (s : St) : Prop
 
 section
 variable {c : Cfg} (hg : c.Good) (env : Env) (pid : Nat) (timeout : Option Rat) (stopAt : Rat)
-variable (P : St → Prop) (Q : Outcome → St → Prop)
+/- `P fuel s`: invariant at the head of an iteration that still has `fuel` iterations to spend
+   (most uses ignore `fuel`; the termination theorem does not). -/
+variable (P : Nat → St → Prop) (Q : Outcome → St → Prop)
 include hg
 
 theorem pollNonChild_rule
     (hk : ∀ st, env.kind ≠ .child st)
-    (hraise : ∀ s τ, P s → Why env timeout s → timeout = some τ → stopAt ≤ s.now → Q (.timeout τ pid) s)
-    (hcont : ∀ s, P s → Why env timeout s → (∀ τ, timeout = some τ → s.now < stopAt) → P (s.advance c))
-    (hnone : ∀ s, P s → env.pidExists s.now = false → Q .none s)
-    (hfuel : ∀ s, P s → Q .outOfFuel s) :
-    ∀ fuel s, P s → Q (pollNonChild c env pid timeout stopAt fuel s).1
-                      (pollNonChild c env pid timeout stopAt fuel s).2 := by
+    (hraise : ∀ n s τ, P (n + 1) s → Why env timeout s → timeout = some τ → stopAt ≤ s.now →
+      Q (.timeout τ pid) s)
+    (hcont : ∀ n s, P (n + 1) s → Why env timeout s → (∀ τ, timeout = some τ → s.now < stopAt) →
+      P n (s.advance c))
+    (hnone : ∀ n s, P (n + 1) s → env.pidExists s.now = false → Q .none s)
+    (hfuel : ∀ s, P 0 s → Q .outOfFuel s) :
+    ∀ fuel s, P fuel s → Q (pollNonChild c env pid timeout stopAt fuel s).1
+                           (pollNonChild c env pid timeout stopAt fuel s).2 := by
   intro fuel
   induction fuel with
   | zero => intro s hp; exact hfuel s hp
@@ -216,31 +220,35 @@ theorem pollNonChild_rule
     · simp only [he, if_true]
       have hw : Why env timeout s := .existsNonChild hk he
       rcases sleepStep_cases hg pid timeout stopAt s with ⟨τ, ht, hd, e⟩ | ⟨hlt, e⟩
-      · rw [e]; exact hraise s τ hp hw ht hd
-      · rw [e]; exact ih _ (hcont s hp hw hlt)
+      · rw [e]; exact hraise n s τ hp hw ht hd
+      · rw [e]; exact ih _ (hcont n s hp hw hlt)
     · have he' : env.pidExists s.now = false := by simpa using he
       simp only [he', Bool.false_eq_true, if_false]
-      exact hnone s hp he'
+      exact hnone n s hp he'
 
 theorem loop_rule
-    (hbump : ∀ s, P s → P { s with nWait := s.nWait + 1 })
-    (hraise : ∀ s τ, P s → Why env timeout s → timeout = some τ → stopAt ≤ s.now → Q (.timeout τ pid) s)
-    (hcont : ∀ s, P s → Why env timeout s → (∀ τ, timeout = some τ → s.now < stopAt) → P (s.advance c))
-    (hcode : ∀ s st, P s → env.kind = .child st → timeout.isSome = true → env.ended s.now = true →
-      1 ≤ s.nWait → env.eintr (s.nWait - 1) = false → Q (decode st) s)
-    (hblock : ∀ s st e, P s → env.kind = .child st → timeout = none → env.exitAt = some e →
+    (hbump : ∀ n s, P n s → P n { s with nWait := s.nWait + 1 })
+    (hraise : ∀ n s τ, P (n + 1) s → Why env timeout s → timeout = some τ → stopAt ≤ s.now →
+      Q (.timeout τ pid) s)
+    (hcont : ∀ n s, P (n + 1) s → Why env timeout s → (∀ τ, timeout = some τ → s.now < stopAt) →
+      P n (s.advance c))
+    (hcode : ∀ n s st, P (n + 1) s → env.kind = .child st → timeout.isSome = true →
+      env.ended s.now = true → 1 ≤ s.nWait → env.eintr (s.nWait - 1) = false → Q (decode st) s)
+    (hblock : ∀ n s st e, P (n + 1) s → env.kind = .child st → timeout = none → env.exitAt = some e →
       Q (decode st) { s with now := rmax s.now e })
-    (hhang : ∀ s st, P s → env.kind = .child st → timeout = none → env.exitAt = none → Q .hang s)
-    (hnone : ∀ s, P s → (∀ st, env.kind ≠ .child st) → env.pidExists s.now = false → Q .none s)
-    (hfuel : ∀ s, P s → Q .outOfFuel s) :
-    ∀ fuel s, P s → Q (waitLoop c env pid timeout stopAt fuel s).1
-                      (waitLoop c env pid timeout stopAt fuel s).2 := by
+    (hhang : ∀ n s st, P (n + 1) s → env.kind = .child st → timeout = none → env.exitAt = none →
+      Q .hang s)
+    (hnone : ∀ n s, P (n + 1) s → (∀ st, env.kind ≠ .child st) → env.pidExists s.now = false →
+      Q .none s)
+    (hfuel : ∀ s, P 0 s → Q .outOfFuel s) :
+    ∀ fuel s, P fuel s → Q (waitLoop c env pid timeout stopAt fuel s).1
+                           (waitLoop c env pid timeout stopAt fuel s).2 := by
   intro fuel
   induction fuel with
   | zero => intro s hp; exact hfuel s hp
   | succ n ih =>
     intro s hp
-    have hp1 := hbump s hp
+    have hp1 := hbump _ s hp
     unfold waitLoop
     by_cases hi : env.eintr s.nWait = true
     · simp only [hi, if_true]
@@ -248,8 +256,8 @@ theorem loop_rule
         .eintr (by simp) (by simpa using hi)
       rcases sleepStep_cases hg pid timeout stopAt { s with nWait := s.nWait + 1 }
         with ⟨τ, ht, hd, e⟩ | ⟨hlt, e⟩
-      · rw [e]; exact hraise _ τ hp1 hw ht hd
-      · rw [e]; exact ih _ (hcont _ hp1 hw hlt)
+      · rw [e]; exact hraise n _ τ hp1 hw ht hd
+      · rw [e]; exact ih _ (hcont n _ hp1 hw hlt)
     · have hi' : env.eintr s.nWait = false := by simpa using hi
       simp only [hi', Bool.false_eq_true, if_false]
       cases hk : env.kind with
@@ -260,30 +268,30 @@ theorem loop_rule
           simp only
           by_cases he : env.ended s.now = true
           · simp only [he, if_true]
-            exact hcode _ st hp1 hk (by simp [ht]) he (by simp) (by simpa using hi')
+            exact hcode n _ st hp1 hk (by simp [ht]) he (by simp) (by simpa using hi')
           · have he' : env.ended s.now = false := by simpa using he
             simp only [he', Bool.false_eq_true, if_false]
             have hw : Why env timeout { s with nWait := s.nWait + 1 } :=
               .aliveChild st hk (by simp [ht]) he' (by simp) (by simpa using hi')
             rcases sleepStep_cases hg pid timeout stopAt { s with nWait := s.nWait + 1 }
               with ⟨τ', ht', hd, e⟩ | ⟨hlt, e⟩
-            · rw [ht] at e; rw [e]; exact hraise _ τ' hp1 hw ht' hd
-            · rw [ht] at e; rw [e]; rw [← ht]; exact ih _ (hcont _ hp1 hw hlt)
+            · rw [ht] at e; rw [e]; exact hraise n _ τ' hp1 hw ht' hd
+            · rw [ht] at e; rw [e]; rw [← ht]; exact ih _ (hcont n _ hp1 hw hlt)
         | none =>
           simp only
           cases hx : env.exitAt with
-          | some e => simp only; exact hblock _ st e hp1 hk ht hx
-          | none => simp only; exact hhang _ st hp1 hk ht hx
+          | some e => simp only; exact hblock n _ st e hp1 hk ht hx
+          | none => simp only; exact hhang n _ st hp1 hk ht hx
       | nonChild =>
         simp only
         have hk' : ∀ st, env.kind ≠ .child st := by intro st h; rw [hk] at h; cases h
         exact pollNonChild_rule hg env pid timeout stopAt P Q hk' hraise hcont
-          (fun s hp he => hnone s hp hk' he) hfuel (n + 1) _ hp1
+          (fun n s hp he => hnone n s hp hk' he) hfuel (n + 1) _ hp1
       | neverExisted =>
         simp only
         have hk' : ∀ st, env.kind ≠ .child st := by intro st h; rw [hk] at h; cases h
         exact pollNonChild_rule hg env pid timeout stopAt P Q hk' hraise hcont
-          (fun s hp he => hnone s hp hk' he) hfuel (n + 1) _ hp1
+          (fun n s hp he => hnone n s hp hk' he) hfuel (n + 1) _ hp1
 
 end
 
